@@ -46,6 +46,17 @@ partial def fragLoop (h : IO.FS.Stream) (out : IO.FS.Stream) (st : Ipam.Sys × B
     out.putStrLn o
     fragLoop h out st'
 
+partial def frag1Loop (h : IO.FS.Stream) (out : IO.FS.Stream) (st : Ipam.Sys × Bool × Bool) : IO Unit := do
+  let line ← h.getLine
+  if line.isEmpty then return ()
+  let l := line.trimAscii.toString
+  if l.isEmpty || l.startsWith "#" then
+    frag1Loop h out st
+  else
+    let (st', o) := frag1Step st l
+    out.putStrLn o
+    frag1Loop h out st'
+
 def main (args : List String) : IO UInt32 := do
   let stdin ← IO.getStdin
   let stdout ← IO.getStdout
@@ -54,4 +65,5 @@ def main (args : List String) : IO UInt32 := do
   | ["hist"] => histLoop stdin stdout Ipam.Sys.init; return 0
   | ["valid"] => lineLoop stdin stdout validStep; return 0
   | ["frag3"] => fragLoop stdin stdout (Ipam.Sys.init, true); return 0
+  | ["frag1"] => frag1Loop stdin stdout (Ipam.Sys.init, true, true); return 0
   | _ => IO.eprintln "usage: driver pool|..."; return 2
